@@ -1010,4 +1010,23 @@ theorem expected_spec (md : CallerMeta) (n : Nat) (nps : Props) (hnd : (nps.map 
           if_neg (by simp [allMissing, hne])]
         rfl
 
+/-- the rows of every property the writer stores line up with the ids (also the added empty axis properties) -/
+theorem expected_rows (md : CallerMeta) (n : Nat) (nps : Props) (hnd : (nps.map (·.1)).Nodup)
+    (hok : ∀ kp ∈ nps, Writable kp.1 kp.2 ∧ RowsOK n kp.2) :
+    ∀ kp ∈ expectedNodeProps md n nps, RowsOK n kp.2 := by
+  unfold expectedNodeProps
+  by_cases hn : n = 0
+  · rw [if_pos hn]
+    cases haxes : md.axes with
+    | none => intro kp hm; exact (hok kp hm).2
+    | some names =>
+      rw [addEmptyAxes_some]
+      intro kp hm
+      rcases (foldl_axStep_spec names nps hnd).2.1 kp hm with h | ⟨_, h⟩
+      · exact (hok kp h).2
+      · rw [h, hn]
+        exact ⟨(fun m hm => (by cases hm)), rfl, (by decide)⟩
+  · rw [if_neg hn]
+    intro kp hm; exact (hok kp hm).2
+
 end Geff.WR
